@@ -1224,24 +1224,25 @@ void NifFile::TrimTexturePaths() {
 					std::string tex = i.get();
 					i.get() = fTrimPath(tex);
 				}
+			}
 
-				auto effectShader = dynamic_cast<BSEffectShaderProperty*>(shader);
-				if (effectShader) {
-					std::string tex = effectShader->sourceTexture.get();
-					effectShader->sourceTexture.get() = fTrimPath(tex);
+			// Effect shaders have no texture set, their paths are members
+			auto effectShader = dynamic_cast<BSEffectShaderProperty*>(shader);
+			if (effectShader) {
+				std::string tex = effectShader->sourceTexture.get();
+				effectShader->sourceTexture.get() = fTrimPath(tex);
 
-					tex = effectShader->normalTexture.get();
-					effectShader->normalTexture.get() = fTrimPath(tex);
+				tex = effectShader->normalTexture.get();
+				effectShader->normalTexture.get() = fTrimPath(tex);
 
-					tex = effectShader->greyscaleTexture.get();
-					effectShader->greyscaleTexture.get() = fTrimPath(tex);
+				tex = effectShader->greyscaleTexture.get();
+				effectShader->greyscaleTexture.get() = fTrimPath(tex);
 
-					tex = effectShader->envMapTexture.get();
-					effectShader->envMapTexture.get() = fTrimPath(tex);
+				tex = effectShader->envMapTexture.get();
+				effectShader->envMapTexture.get() = fTrimPath(tex);
 
-					tex = effectShader->envMaskTexture.get();
-					effectShader->envMaskTexture.get() = fTrimPath(tex);
-				}
+				tex = effectShader->envMaskTexture.get();
+				effectShader->envMaskTexture.get() = fTrimPath(tex);
 			}
 		}
 
